@@ -351,6 +351,10 @@ def run_frontends(rec, seed):
     mods = gen_forest(rng)
     names = [m for m in sorted(mods) if mods[m]["kind"] != "ns"]
     hooked = rng.sample(sorted(mods), 2)
+    # modules under the hooked names are imported at the beginning AND at the very end of the test session (the pytest
+    # child runs nested in-process sessions in between)
+    hk = [m for m in names if any(m == h or m.startswith(h + ".") for h in hooked)]
+    names = hk[:1] + [m for m in names if m not in hk] + hk[1:]
     root = tempfile.mkdtemp(prefix="jtv_c11_")
     try:
         write_forest(root, mods)
